@@ -653,7 +653,78 @@ func c10LimitInputs(ctx *core.Ctx) []WorkItem {
 			add(fmt.Sprintf("chunk-declares-%d-%s", declared, comp), d)
 		}
 	}
+	// chunk records whose own length exceeds MaxRecordSize and whose compression-string length is large:
+	// the limit must be applied before anything is sized from the record
+	for _, recLen := range []uint64{c10Limit + 1, 1 << 30, 1 << 40} {
+		for _, compLen := range []uint32{c10Limit + 1, 64 << 20, 256 << 20, 1<<31 - 10} {
+			d := append([]byte(nil), hdr...)
+			d = append(d, refmcap.OpChunk)
+			d = binary.LittleEndian.AppendUint64(d, recLen)
+			d = append(d, make([]byte, 28)...) // start, end, uncompressed size, crc
+			d = binary.LittleEndian.AppendUint32(d, compLen)
+			d = append(d, []byte("zstd-and-then-nothing-more")...)
+			add(fmt.Sprintf("chunk-record-%d-compression-length-%d", recLen, compLen), d)
+		}
+	}
 	return items
+}
+
+// runLimitsStage checks the configured-ceiling clause under exact allocation profiling: first all inputs
+// in one profiled worker (sites are aggregated), then - only if some site is over the bound or a call
+// failed - each input alone, to attribute.
+func runLimitsStage(ctx *core.Ctx, rep *core.Report, lim []WorkItem) {
+	dir, err := osMkdirTemp(ctx)
+	if err != nil {
+		rep.Inconclusive(err.Error())
+		return
+	}
+	defer osRemoveAll(dir)
+	over := func(s AllocSite) bool {
+		return strings.HasPrefix(s.Func, "github.com/foxglove/mcap/go/mcap.") && s.Bytes > 2*c10Limit+(64<<10)
+	}
+	judge := func(its []WorkItem, tag string) bool {
+		rs := runBatch(ctx, "c10limits", dir, tag, its, true, rep)
+		bad := false
+		for _, it := range its {
+			r := rs[it.ID]
+			if r == nil {
+				continue
+			}
+			witness := map[string]any{"input_kind": it.Kind, "input_hex": core.Hex(it.Data), "stream": "limits", "id": it.ID}
+			if r.Fatal != "" {
+				rep.Violate("fatal:"+r.Fatal, fmt.Sprintf("limits input %s: process died: %s", it.Kind, r.Fatal), witness)
+				bad = true
+				continue
+			}
+			for e, o := range r.Outcomes {
+				if strings.HasPrefix(o, "panic:") {
+					rep.Violate(o, fmt.Sprintf("limits input %s: %s %s", it.Kind, e, o), witness)
+					bad = true
+				}
+			}
+			for _, s := range r.Sites {
+				if over(s) {
+					bad = true
+					if len(its) == 1 {
+						fn := strings.TrimPrefix(s.Func, "github.com/foxglove/mcap/go/")
+						rep.Violate("alloc-over-configured-limit:"+fn, fmt.Sprintf("limits input %s: with MaxRecordSize=MaxDecompressedChunkSize=1 MiB, %s allocated a single object of %d bytes", it.Kind, s.Func, s.Bytes), witness)
+						break
+					}
+				}
+			}
+		}
+		return bad
+	}
+	rep.Eval(len(lim))
+	rep.Count("limit_inputs_profiled", int64(len(lim)))
+	for _, it := range lim {
+		rep.Distinct("limits", it.Kind)
+	}
+	if judge(lim, "lim-all") && len(lim) > 1 {
+		for _, it := range lim {
+			judge([]WorkItem{it}, fmt.Sprintf("lim%d", it.ID))
+		}
+	}
 }
 
 func RunC10(ctx *core.Ctx, rep *core.Report) {
@@ -662,6 +733,9 @@ func RunC10(ctx *core.Ctx, rep *core.Report) {
 		"Oracle: no panic escapes, the process survives, CPU budget kept, no single object >= 2^31 bytes (exact per-site accounting with MemProfileRate=1 for inputs on which a single call allocated 2 GiB or more in total), and with MaxRecordSize/MaxDecompressedChunkSize = 1 MiB no object allocated by package mcap above 2 MiB + 64 KiB. distinct_nontrivial counts distinct inputs on which at least one entry point returned data or an error."
 	rep.Assumptions = []string{"panics are recovered per call inside the worker; fatal terminations are attributed through the journal", "allocation accounting: runtime.MemStats.TotalAlloc deltas (exact) as filter, runtime.MemProfile with rate 1 for attribution"}
 	nStruct, nRand, nSplice := ctx.Pick(6000, 250000), ctx.Pick(2000, 60000), ctx.Pick(1200, 40000)
+	if os.Getenv("VERIF_C10_STAGE") == "limits" { // self-test convenience: only the configured-limit stage
+		nStruct, nRand, nSplice = 50, 20, 20
+	}
 	items, kinds := c10Inputs(ctx, nStruct, nRand, nSplice)
 	for k, v := range kinds {
 		rep.Count("inputs_"+k, int64(v))
@@ -672,64 +746,7 @@ func RunC10(ctx *core.Ctx, rep *core.Report) {
 	}
 	judgeC10(ctx, rep, items, results, "main")
 	// configured ceilings, with exact accounting
-	lim := c10LimitInputs(ctx)
-	dir, err := osMkdirTemp(ctx)
-	if err == nil {
-		defer osRemoveAll(dir)
-		judgeLimits := func(its []WorkItem, tag string) bool {
-			rs := runBatch(ctx, "c10limits", dir, tag, its, true, rep)
-			bad := false
-			for _, it := range its {
-				r := rs[it.ID]
-				if r == nil {
-					continue
-				}
-				witness := map[string]any{"input_kind": it.Kind, "input_hex": core.Hex(it.Data), "stream": "limits", "id": it.ID}
-				if r.Fatal != "" {
-					rep.Violate("fatal:"+r.Fatal, fmt.Sprintf("limits input %s: process died: %s", it.Kind, r.Fatal), witness)
-					bad = true
-					continue
-				}
-				for e, o := range r.Outcomes {
-					if strings.HasPrefix(o, "panic:") {
-						rep.Violate(o, fmt.Sprintf("limits input %s: %s %s", it.Kind, e, o), witness)
-						bad = true
-					}
-				}
-				if len(its) == 1 {
-					for _, s := range r.Sites {
-						if strings.HasPrefix(s.Func, "github.com/foxglove/mcap/go/mcap.") && s.Bytes > 2*c10Limit+(64<<10) {
-							fn := strings.TrimPrefix(s.Func, "github.com/foxglove/mcap/go/")
-							rep.Violate("alloc-over-configured-limit:"+fn, fmt.Sprintf("limits input %s: with MaxRecordSize=MaxDecompressedChunkSize=1 MiB, %s allocated a single object of %d bytes", it.Kind, s.Func, s.Bytes), witness)
-							break
-						}
-					}
-				}
-			}
-			// allocation sites are aggregated over the batch
-			for _, it := range its[:1] {
-				if r := rs[it.ID]; r != nil {
-					for _, s := range r.Sites {
-						if strings.HasPrefix(s.Func, "github.com/foxglove/mcap/go/mcap.") && s.Bytes > 2*c10Limit+(64<<10) {
-							bad = true
-						}
-					}
-				}
-			}
-			return bad
-		}
-		rep.Eval(len(lim))
-		rep.Count("limit_inputs_profiled", int64(len(lim)))
-		for _, it := range lim {
-			rep.Distinct("limits", it.Kind)
-		}
-		if judgeLimits(lim, "lim-all") {
-			// attribute: re-run each input alone
-			for _, it := range lim {
-				judgeLimits([]WorkItem{it}, fmt.Sprintf("lim%d", it.ID))
-			}
-		}
-	}
+	runLimitsStage(ctx, rep, c10LimitInputs(ctx))
 	if ctx.Thorough() {
 		runFuzzStage(ctx, rep, 150000)
 	}
